@@ -1,4 +1,5 @@
 import ComposeVerif.Ops.Common
+import ComposeVerif.Ops.C07
 import ComposeVerif.Model.EnvLayers
 import ComposeVerif.Spec.EnvLayers
 /-! line-protocol ops for C16: `c16.env`, `c16.labels`, `c16.load` (model) and `c16.spec` (specification) -/
@@ -27,10 +28,11 @@ def pairs (j : Json) (k : String) : List (Key × Str) :=
     | some v => some (p.1, v)
     | none => none
 
+/-- C07's wire format of a template segment (`lit` / `esc` / `var`+`braced` / `op`+`o`+`arg`) -/
 def segOfJson (j : Json) : Seg :=
-  match j.getObjVal? "ref" with
-  | .ok (.str s) => .ref s.toList
-  | _ => .lit (getStr j "lit").toList
+  match CV.Ops.C07.segOfJson j with
+  | some s => s
+  | none => .lit []
 
 def lineOfJson (j : Json) : Line :=
   match j.getObjVal? "bare" with
@@ -77,6 +79,7 @@ def serviceOfJson (j : Json) : Str × Service :=
 
 def errStr : Err → String
   | .notFound => "notFound" | .format => "format" | .parse => "parse" | .read => "read"
+  | .template => "template" | .panic => "panic"
 
 def mweJson (m : List (Key × Option Str)) : Json :=
   Json.mkObj (m.map fun kv => (String.ofList kv.1, match kv.2 with | some v => str v | none => Json.null))
@@ -137,7 +140,11 @@ def specOp : Handler := fun args =>
   let env := pairsOpt args "environment"
   let labels := pairs args "labels"
   let keys := (getStrList args "keys").map String.toList
-  if missingRequired efl then Json.mkObj [("err", "notFound")]
+  let wf := (efl ++ lfl).all fun f => f.lines.all fun l => match l with
+    | .assign _ v => CV.Template.WF v
+    | _ => true
+  if !wf then Json.mkObj [("wf", Json.bool false)]
+  else if missingRequired efl then Json.mkObj [("err", "notFound")]
   else if lfl.any (fun f => !f.present) then Json.mkObj [("err", "notFound")]
   else
     let files := presentFiles efl
